@@ -90,12 +90,26 @@ func deflate(b []byte) []byte {
 	return zb.Bytes()
 }
 
+// a ServiceProvider value kept across validations (nil: a fresh one per case) and the IdP keys its metadata names now
+var (
+	logoutShared *saml.ServiceProvider
+	logoutTrust  []string
+)
+
 func (c *Ctx) runLogout(l lresp, encoding string, delay int64) {
 	cfg := baseCfg()
 	cfg.Delay = delay
+	if logoutTrust != nil {
+		cfg.Trust = logoutTrust
+	}
 	now := time.Now().UnixMilli()
 	setGlobals(cfg, now)
 	s := c.realSP(cfg)
+	if logoutShared != nil {
+		// the deployment refreshes the IdP's metadata (same entity, possibly new keys) on the value it keeps
+		logoutShared.IDPMetadata = s.IDPMetadata
+		s = logoutShared
+	}
 	s.SloURL = mustURL(sloURL)
 	xmlb := c.logoutXML(l)
 	var payload string
@@ -135,6 +149,14 @@ func (c *Ctx) runLogout(l lresp, encoding string, delay int64) {
 	// abstract document
 	var dtoks []string
 	sigst := map[string]string{"none": "a", "idp": "v", "attacker": "i", "idp2": "i", "idp-then-edit": "i", "moved": "a", "two": "i"}[l.Sig]
+	if l.Sig == "idp" || l.Sig == "idp2" || l.Sig == "attacker" {
+		sigst = "i"
+		for _, t := range cfg.Trust {
+			if t == l.Sig {
+				sigst = "v"
+			}
+		}
+	}
 	switch {
 	case l.Kind == "garbage-b64" || l.Kind == "garbage-xml" || l.Kind == "xrv" || (l.Kind == "inflate-garbage" && strings.Contains(encoding, "redirect")):
 		dtoks = []string{"u"}
@@ -243,5 +265,20 @@ func (c *Ctx) genC18() {
 			}
 		}
 	}
+	// one ServiceProvider value across an IdP key rotation: each response is judged against the certificates the
+	// metadata names at that moment (retired key refused, current key accepted)
+	logoutShared = c.realSP(baseCfg())
+	for round, trust := range [][]string{{"idp"}, {"idp2"}, {"idp"}, {"idp", "idp2"}, {"idp2"}, {"attacker"}, {"idp"}} {
+		logoutTrust = trust
+		for _, sg := range []string{"idp", "idp2", "attacker", "none"} {
+			for _, e := range encs {
+				l := base()
+				l.Sig = sg
+				c.count("c18-rotation-round", fmt.Sprint(round))
+				c.runLogout(l, e, delay)
+			}
+		}
+	}
+	logoutShared, logoutTrust = nil, nil
 	_ = etree.NewDocument
 }
